@@ -14,6 +14,7 @@ var (
 	MaxHintLength    = MaxTypeLength + MaxVersionLength + 1
 	MinHintLength    = MinTypeLength + util.MinVersionLength + 1
 	regVersion       = regexp.MustCompile(`\-v\d+`)
+	regDottedVersion = regexp.MustCompile(`\-v\d+\.`)
 )
 
 var hintcache util.GCache[string, any]
@@ -41,7 +42,14 @@ func NewHint(t Type, v util.Version) Hint {
 
 // EnsureParseHint tries to parse hint string, but skips to check IsValid().
 func EnsureParseHint(s string) Hint {
-	l := regVersion.FindStringIndex(s)
+	// NOTE Type can not have '.', so the first "-v<digits>." is where the
+	// printed version starts, even if the type itself has "-v<digits>"; the
+	// short version like "-v2" is looked for only without it.
+	l := regDottedVersion.FindStringIndex(s)
+	if len(l) < 1 {
+		l = regVersion.FindStringIndex(s)
+	}
+
 	if len(l) < 1 {
 		return Hint{}
 	}
